@@ -14,7 +14,7 @@ RECURSIVE Omit(_, _, _), Body(_, _, _), Framed(_, _, _, _), Fields(_, _, _, _), 
 
 Omit(cfg, T0, v) == LET T == Resolve(T0) IN
   CASE T.k = "bool" -> ~v
-    [] T.k \in {"int", "uint"} -> v.mag = <<>>
+    [] T.k \in {"int", "uint", "marked"} -> v.mag = <<>>
     [] T.k \in {"f32", "f64"} -> IsZeroFloat(v)
     [] T.k = "string" -> v = <<>>
     [] T.k = "bytes" -> v.b = <<>>
@@ -29,6 +29,15 @@ Omit(cfg, T0, v) == LET T == Resolve(T0) IN
 
 \* the null.* codecs are built on the default time codec whatever the instance options (finding F19 for C12)
 NullCfg(cfg) == IF cfg.nullProto THEN cfg ELSE [cfg EXCEPT !.protoTime = FALSE]     \* nullProto: the ideal reading, used to name finding F19
+\* little-endian 4 bytes of a 32-bit pattern given as limbs
+LimbBits(l, from, n) ==      \* value of bits [from, from+n) of the limb sequence
+  LET bit(i) == LET li == (i \div 7) + 1 IN IF li > Len(l) THEN 0 ELSE (l[li] \div (2 ^ (i % 7))) % 2
+      f[j \in 0..n] == IF j = 0 THEN 0 ELSE f[j - 1] + bit(from + j - 1) * (2 ^ (j - 1)) IN f[n]
+LE32(l) == <<LimbBits(l, 0, 8), LimbBits(l, 8, 8), LimbBits(l, 16, 8), LimbBits(l, 24, 8)>>
+\* and back: 4 bytes to canonical limbs
+FromLE32(b) == LET bit(i) == (b[(i \div 8) + 1] \div (2 ^ (i % 8))) % 2
+                   limb(j) == LET f[k \in 0..7] == IF k = 0 THEN 0 ELSE f[k - 1] + (IF 7 * j + k - 1 < 32 THEN bit(7 * j + k - 1) ELSE 0) * (2 ^ (k - 1)) IN f[7] IN
+               Strip([j \in 1..5 |-> limb(j - 1)])
 SInt(n) == [neg |-> FALSE, mag |-> NatLimbs(n)]
 TimeBody(cfg, v) ==
   IF cfg.protoTime
@@ -58,6 +67,9 @@ Body(cfg, T0, v) == LET T == Resolve(T0) IN
   CASE T.k = "bool" -> IF v THEN <<1>> ELSE <<0>>
     [] T.k = "int" -> IF T.flat THEN AppendVarUint(Bits(T.w, v)) ELSE AppendVarInt(v)
     [] T.k = "uint" -> AppendVarUint(v.mag)
+    \* the marker codec writes the 32-bit two's complement pattern as a little-endian fixed32, plus 7 in the first byte position
+    \* being unnecessary: the wire type alone distinguishes it from the kind's default (zig-zag varint)
+    [] T.k = "marked" -> IF Marker(cfg, T) THEN LE32(Bits(32, v)) ELSE AppendVarInt(v)
     [] T.k \in {"f32", "f64"} -> v
     [] T.k = "string" -> v
     [] T.k = "bytes" -> v.b
